@@ -116,6 +116,10 @@ func (ex *Exec) goPanic(format string, a ...interface{}) {
 	panic(panicOut{fmt.Sprintf(format, a...)})
 }
 
+// ForkStats (debugging aid, GOVC_FORKSTATS): new decision points per source position.
+var ForkStats map[string]int
+var curIns ssa.Instruction
+
 func (ex *Exec) choose(n int) int {
 	if n <= 1 {
 		return 0
@@ -124,6 +128,13 @@ func (ex *Exec) choose(n int) int {
 		d := ex.dec[ex.pos]
 		ex.pos++
 		return d
+	}
+	if ForkStats != nil && curIns != nil {
+		pos := "?"
+		if fn := curIns.Parent(); fn != nil {
+			pos = fn.Prog.Fset.Position(curIns.Pos()).String() + " in " + fn.Name() + " b" + fmt.Sprint(curIns.Block().Index) + " " + curIns.String()
+		}
+		ForkStats[pos]++
 	}
 	prefix := append([]int(nil), ex.dec...)
 	for i := 1; i < n; i++ {
@@ -838,6 +849,9 @@ func (ex *Exec) runFrom(fr *frame, block, prev *ssa.BasicBlock) Val {
 		}
 		var next *ssa.BasicBlock
 		for _, ins := range block.Instrs {
+			if ForkStats != nil {
+				curIns = ins
+			}
 			switch ins := ins.(type) {
 			case *ssa.Phi:
 				idx := -1
